@@ -104,6 +104,13 @@ func (w *ResponseWriter) WriteMsg(m *dns.Msg) error {
 	if m.Rcode != dns.RcodeServerFailure || !m.RecursionDesired {
 		return w.ResponseWriter.WriteMsg(m)
 	}
+	// A SERVFAIL that is the validator's verdict on the data is the answer
+	// (RFC 4035 §5.5), not an outage: asking another resolver would let its
+	// unvalidated reply replace it. Only the failure to obtain an answer is
+	// retried elsewhere.
+	if dnsutil.IsDNSSECFailure(m) {
+		return w.ResponseWriter.WriteMsg(m)
+	}
 	if middleware.RecursionWorkEnforcementError(w.ctx) != nil {
 		return w.writeRecursionWorkFailure(m, nil)
 	}
@@ -176,6 +183,10 @@ func (w *ResponseWriter) WriteMsg(m *dns.Msg) error {
 		// an upstream to echo CD correctly: cache failure isolation and
 		// success reset both key on this bit.
 		resp.CheckingDisabled = m.CheckingDisabled
+		// AD is this server's statement that it validated the data. A
+		// fallback answer was validated by nobody here, whatever its
+		// sender claims over an unauthenticated hop.
+		resp.AuthenticatedData = false
 		responseType, _ := dnsutil.ClassifyResponse(resp, time.Now())
 		if responseType == dnsutil.TypeServerFailure {
 			if failureResponse == nil {
